@@ -1151,14 +1151,6 @@ func (s *Entry) print(ctx context.Context, lvl Level, timestamp time.Time, stack
 }
 
 func (s *Entry) printImpl(ctx context.Context, pc *PrintCtx) {
-	if pc.lvl == AlwaysLevel && strings.Trim(pc.msg, "\n\r \t") == "" {
-		// pc.pcAppendByte('\n')
-		// msg := pc.Bytes()
-		// s.printOut(pc.lvl, msg)
-		s.printOut(pc.lvl, []byte{'\n'})
-		return
-	}
-
 	pc.Begin()
 
 	if pc.noColor { // json or logfmt
@@ -1349,6 +1341,15 @@ func (s *Entry) logContext(ctx context.Context, lvl Level, stackFrame uintptr, m
 
 	if ctx == nil {
 		ctx = context.TODO()
+	}
+
+	if lvl == AlwaysLevel && strings.Trim(msg, "\n\r \t") == "" {
+		// Print("") / Println(): a blank line. That is a feature of
+		// the logging calls; a record that is handed over by WriteThru
+		// (the log/slog handler, adapters) or by a std log bridge is
+		// printed as the record it is, attributes and all.
+		s.printOut(lvl, []byte{'\n'})
+		return
 	}
 
 	var kvps Attrs
